@@ -2,7 +2,7 @@
    This file only pins statements; proofs live in Proof/. *)
 From Coq Require Import NArith ZArith List Reals.
 From Flocq Require Import Core.
-From KT Require Import Gen.Generated Gen.Alphabet Gen.GeneratedFacts Model.Kmer Model.Ops Model.Rows Model.Flt.
+From KT Require Import Gen.Generated Gen.Alphabet Gen.FactsBase Gen.FactTableKmer Model.Kmer Model.Ops Model.Rows Model.Flt.
 From KT Require Import Proof.Oligo Proof.RowsProof Proof.FmtProof Proof.LayoutProof.
 From KT Require Import Model.Show Proof.FmtError.
 Import ListNotations.
